@@ -458,6 +458,11 @@ pub fn run(opts: &Opts) -> Report {
         ("three", vec![("c", "a"), ("b", "c"), ("a", "[b].map(x, x)[0]")]),
         ("reduce", vec![("a", "[1,2].reduce(acc, x, acc + a, 0)")]),
         ("filter-all", vec![("a", "[1].filter(x, [2].all(y, a))")]),
+        ("map-over-map-body", vec![("a", "{'k': 1}.map(x, a)")]),
+        ("map3-over-map-body", vec![("a", "{'k': 1}.map(x, true, a)")]),
+        ("filter-over-map-body", vec![("a", "{'k': 1}.filter(x, a)")]),
+        ("exists-one-body", vec![("a", "[1].exists_one(x, a)")]),
+        ("reduce-seed", vec![("a", "[1].reduce(acc, x, acc, a)")]),
     ];
     for (tag, progs) in refs.iter() {
         ladders.push(Job { tag: format!("refs:{}", tag), progs: progs.iter().map(|(n, s)| (n.to_string(), s.to_string())).collect(), binds: vec![] });
